@@ -31,6 +31,9 @@ CHECKS = {
  "C19": ("E2-bfs+E3-sched(+E5 race)", "explicit-state BFS over decode histories keyed on the real intern tables' contents, plus scheduler-controlled interleaving enumeration of concurrent decoders sharing the tables",
    "BFS: every history of <=4 (thorough 6) decode operations over the string alphabet (new, repeated, empty, shared prefix, binary, 128-byte; string and null.String fields; two independent tables per type), states de-duplicated on the tables' contents read reflectively from the real codec; in every state the interned result equals the plain twin's, all strings returned so far are unchanged after the caller's buffer is overwritten, no table entry or result lies inside a caller buffer (address ranges), earlier table snapshots are untouched (copy-on-write) and the encoding equals the plain one. Schedules: 12 scenarios of 2-3 goroutines through shared tables, all schedules within the completed preemption bound, sequential-specification oracle.",
    "Trusted: the reflective table locator (layout change => machinery error), the scheduler as for C07. The -race pass is complementary.", "§7 C19"),
+ "C04": ("E4-dev", "exhaustive enumeration of hostile decoder inputs: all short byte strings, all single deviations (truncation, byte substitution, token replacement/insertion) from every valid corpus encoding, all short token strings; each decoded by the real Unmarshal / Codec.Read / Descriptor.Read under three memory presentations",
+   "26 targets (an every-encoding struct in default and proto configuration, each container type at top level, recursive hand-written types, the JSON-any codecs). Every byte string of length <=2 (thorough: +third byte from the boundary alphabet), every truncation / alphabet substitution / boundary-varint token replacement or insertion of every corpus encoding (thorough: two deviations on short encodings), every token string of <=3 (4) tokens. Oracles per input: no panic or fatal error (worker death is attributed to the input), termination (watchdog), identical result for capacity==length and two differently filled spare capacities (no read outside the input), allocation bound confirmed with an exact measurement, Read's n within [0,len].",
+   "Trusted: the Go runtime's bounds checks and allocation statistics. Honest descriptors only. Inputs further than 2 deviations from a valid encoding and raw strings longer than 3 bytes are outside the bound.", "§7 C04"),
 }
 NOT_YET = "check not built yet (in progress); see DESIGN.md §7 for the planned model-checking design"
 
@@ -65,6 +68,7 @@ def main():
         },
         "engines": [
             {"name": "E3-sched", "path": "harness/sched + harness/vsync + harness/vatomic + harness/cmd/ovl", "serves_properties": ["C07", "C19", "C10"], "kind_free_text": "cooperative scheduler + preemption-bounded DFS over the real code; sync and sync/atomic are replaced by shims through a generated go build -overlay"},
+            {"name": "E4-dev", "path": "harness/props/c04.go, c18.go", "serves_properties": ["C04", "C18"], "kind_free_text": "deviation-bounded exhaustive hostile-input enumeration with crash/hang attribution per input"},
             {"name": "E1-enum", "path": "harness/mc + harness/ref + harness/props", "serves_properties": [p for p in CHECKS if CHECKS[p][0] == "E1-enum"], "kind_free_text": "bounded exhaustive case enumeration on the real code vs. reference model, sharded over worker processes with crash/hang attribution"},
         ],
         "checks": checks,
